@@ -35,7 +35,8 @@ type nodeStore struct {
 	restIdx  uint64 // index whose reads come back altered (0 = none)
 	restMut  func(*raft.Log)
 	getCalls int
-	altered  int // reads served altered
+	altered  int    // reads served altered
+	swapA    uint64 // reads of swapA and swapA+1 are exchanged (0 = none)
 }
 
 func (s *nodeStore) FirstIndex() (uint64, error) {
@@ -49,6 +50,18 @@ func (s *nodeStore) LastIndex() (uint64, error) {
 func (s *nodeStore) GetLog(i uint64, l *raft.Log) error {
 	s.sim.MaybeYield("inner:GetLog")
 	s.getCalls++
+	if s.swapA != 0 && (i == s.swapA || i == s.swapA+1) {
+		// at-rest corruption: two neighbouring entries come back in each other's place
+		j := s.swapA
+		if i == s.swapA {
+			j = s.swapA + 1
+		}
+		err := s.inner.GetLog(j, l)
+		if t := s.sim.Current(); err == nil && t != nil && t.Name == "verifier" {
+			s.altered++
+		}
+		return err
+	}
 	err := s.inner.GetLog(i, l)
 	if err == nil && s.restIdx == i && s.restMut != nil {
 		s.restMut(l)
@@ -142,6 +155,10 @@ func cloneLog(l *raft.Log) *raft.Log {
 	c.Data = append([]byte(nil), l.Data...)
 	c.Extensions = append([]byte(nil), l.Extensions...)
 	return &c
+}
+
+func sameLogIgnoringIndex(a, b *raft.Log) bool {
+	return a.Term == b.Term && a.Type == b.Type && bytes.Equal(a.Data, b.Data) && bytes.Equal(a.Extensions, b.Extensions) && a.Index == b.Index
 }
 
 func sameLog(a, b *raft.Log) bool {
@@ -650,8 +667,8 @@ func (c *cluster) changeLeader() {
 // disarmRest: an at-rest mutation whose index is deleted from the node no
 // longer describes anything; a new one may be armed later.
 func (c *cluster) disarmRest(n *cnode, lo, hi uint64) {
-	if n.wrap.restIdx != 0 && n.wrap.restIdx >= lo && n.wrap.restIdx <= hi {
-		n.wrap.restIdx, n.wrap.restMut = 0, nil
+	if n.wrap.restIdx != 0 && ((n.wrap.restIdx >= lo && n.wrap.restIdx <= hi) || (n.wrap.swapA != 0 && n.wrap.swapA+1 >= lo && n.wrap.swapA+1 <= hi)) {
+		n.wrap.restIdx, n.wrap.restMut, n.wrap.swapA = 0, nil, 0
 		if c.mutated && c.mutKind == "rest" && c.mutNode == n.id && c.mutExpected == 0 {
 			c.mutated = false
 		}
@@ -717,6 +734,18 @@ func (c *cluster) armRestMutation() {
 	}
 	if len(c.cps[idx]) > 0 {
 		return
+	}
+	if c.tp.Choose(6) == 0 {
+		// swapped neighbours (both inside the future range, neither a checkpoint)
+		e2 := n.mem.m[idx+1]
+		if e2 != nil && len(c.cps[idx+1]) == 0 && !sameLogIgnoringIndex(e, e2) {
+			n.wrap.swapA = idx
+			n.wrap.restIdx = idx
+			c.mutated, c.mutKind, c.mutNode, c.mutIdx, c.mutField = true, "rest", n.id, idx, "swap"
+			c.fired.Add("mutation_at_rest_swap", 1)
+			c.logf("MUTATION at rest: n%d returns entries %d and %d swapped", n.id, idx, idx+1)
+			return
+		}
 	}
 	spec := c.chooseMutation(true)
 	probe := cloneLog(e)
@@ -869,7 +898,8 @@ func (c *cluster) transparencyProbe(n *cnode) {
 		var l raft.Log
 		err := n.ls.GetLog(i, &l)
 		want := n.mem.m[i]
-		if n.wrap.restIdx != i && (err != nil || !sameLog(want, &l)) {
+		swapped := n.wrap.swapA != 0 && (i == n.wrap.swapA || i == n.wrap.swapA+1)
+		if n.wrap.restIdx != i && !swapped && (err != nil || !sameLog(want, &l)) {
 			c.violate("transparent", "getlog-differs", "node %d: GetLog(%d) through the middleware differs from the inner store (%v)", n.id, i, err)
 			return
 		}
